@@ -248,7 +248,13 @@ func (m *Muxer) validate() error {
 	}
 	// Check that frame dimensions fit within the canvas.
 	canvasW, canvasH := m.canvasSize()
+	if canvasW > container.MaxCanvasSize || canvasH > container.MaxCanvasSize {
+		return fmt.Errorf("%w: canvas %dx%d exceeds the 24-bit container limit", ErrMuxValidation, canvasW, canvasH)
+	}
 	for i, f := range m.frames {
+		if f.opts.OffsetX < 0 || f.opts.OffsetY < 0 {
+			return fmt.Errorf("%w: frame %d has a negative offset (%d,%d)", ErrMuxValidation, i, f.opts.OffsetX, f.opts.OffsetY)
+		}
 		fw, fh := frameDimensions(f.data)
 		if fw == 0 || fh == 0 {
 			continue // could not parse dimensions, skip check
